@@ -33,7 +33,7 @@ CLAIMS = {
             "Lean proof (action-at-most-once over all histories of the running machine) + correspondence + action oracles"),
     "C11": ("Proved for every reachable world: allocated_bytes() equals the total size of the boxes that exist (BytesOk), buffered_objects_count() is the length of a duplicate-free buffer whose members are exactly the PossibleCycles-marked live boxes (buffer_exact, from Inv). Step lemmas: add_to_list/remove_from_list exact size change; clone leaves the buffer; executions_count grows in EVERY micro-step by exactly the number of collections the step starts (executions_count_exact, all modes). Checked per run by model-independent oracles (allocator sum vs allocated_bytes, buffer walk vs cached size, link integrity, marks).",
             "Lean proof (bytes and buffer invariants over all micro-steps) + correspondence + buffer-walk oracle"),
-    "C12": ("is_tracing characterisation, collect clears finalizing/dropping (trace always sees is_tracing), nested collect and auto-collect are no-ops while collecting, try_unwrap Err / finalize_again panic in callbacks, and (from I6, proved globally) is_tracing false when idle.",
+    "C12": ("Proved for every reachable world, all nestings of callbacks and caught panics included (Proofs/TraceFlag.lean, TraceFlagEv.lean): EVERY trace EVENT IS EMITTED WITH is_tracing() = true AND EVERY finalize / drop / cleaning-action EVENT WITH is_tracing() = false (tracing_flag_of_every_callback); is_tracing() is false whenever anything but the collector's own loop or pass is on top of the stack - any script of user code, whatever encloses it (not_tracing_unless_collector_on_top; stack invariant tOk: the tracing flags are in force only directly under a collector frame) - and true whenever a pass is about to run. Step lemmas: collect clears finalizing/dropping, nested collect and auto-collect are no-ops while collecting, try_unwrap Err / finalize_again panic in callbacks, and (from I6, proved globally) is_tracing false when idle.",
             "Lean theorems + global flags invariant + correspondence"),
     "C13": ("try_unwrap case analysis proved: Err with unchanged world iff not unique (or in a callback); Ok world characterised (box released, value not in box, leaves the buffer, only free/metaFree events, no finalizer/destructor) - with the buffer invariant it needs proved for every reachable world (unwrapped_spec_reachable), and a unique pointer's target is owned by no collector list (unique_not_owned).",
             "Lean theorems on the try_unwrap step + correspondence + allocator oracle"),
